@@ -69,6 +69,10 @@ impl Pair {
     fn new() -> Pair {
         Pair { mn: Min::new(), mx: Max::new() }
     }
+    /// the same empty estimators through Default
+    fn default_() -> Pair {
+        Pair { mn: Min::default(), mx: Max::default() }
+    }
 }
 
 pub struct MWant {
@@ -94,7 +98,7 @@ fn replay(h: &Value, ops: &[Op], specs: &[Value], scale: f64, want: &MWant, rep:
     rep.replays += 1;
     let prop = want.prop.as_str();
     let run = |roundtrip: bool, rep: &mut Report| -> (Vec<Pair>, Vec<Vec<String>>, Vec<bool>) {
-        let mut w: Vec<Pair> = (0..k).map(|_| Pair::new()).collect();
+        let mut w: Vec<Pair> = (0..k).map(|i| if i % 2 == 0 { Pair::new() } else { Pair::default_() }).collect();
         let mut ghost: Vec<Vec<String>> = vec![vec![]; k];
         let mut addonly = vec![true; k];
         for (step, op) in ops.iter().enumerate() {
@@ -139,7 +143,7 @@ fn replay(h: &Value, ops: &[Op], specs: &[Value], scale: f64, want: &MWant, rep:
                     addonly[*d] = addonly[*s];
                 }
                 Op::Fresh(s) => {
-                    w[*s] = Pair::new();
+                    w[*s] = if step % 2 == 0 { Pair::new() } else { Pair::default_() };
                     ghost[*s].clear();
                     addonly[*s] = true;
                 }
